@@ -95,6 +95,8 @@ def judge_cause_case(lines):
             elif d["dropped"] != "1":
                 bad.append("an error cause that does not parse as an error cause object was passed on")
         elif k == "kept":
+            if d.get("docvalid", "1") != "1":
+                bad.append("an error cause that is not valid JSON (json.Valid of the bytes the runtime sent) was passed on")
             if d["outvalid"] != "1":
                 bad.append("the error cause passed on is not valid JSON")
             if int(d["size"]) > MAX_CAUSE:
@@ -113,6 +115,8 @@ def judge_cause_case(lines):
                 bad.append(f"handler {d['which']}: the error body did not pass through byte for byte")
             if d["causeok"] != "1":
                 bad.append(f"handler {d['which']}: stored X-Ray cause is not valid JSON of at most {MAX_CAUSE} bytes ({d['causelen']} bytes)")
+            if d.get("srcvalid", "1") != "1" and int(d["causelen"]) > 0:
+                bad.append(f"handler {d['which']}: the X-Ray cause header was not valid JSON, yet a cause of {d['causelen']} bytes was stored as trace data")
             if d["causesame"] != "1":
                 bad.append(f"handler {d['which']}: stored X-Ray cause differs from the validated cause")
     return bad
